@@ -341,6 +341,9 @@ def shortest_arc(m, pairs):
                     out.append("resample_state: column VN is not interpolated linearly next to attitude columns (%r at %g)" % (float(Rs.iloc[j]['VN']), t))
                     break
         except Exception as e:
+            from . import exc
+            if not exc.entered_pyins(e):
+                raise
             out.append("resample_state raised %s: %s on a two-row attitude table" % (type(e).__name__, str(e)[:100]))
     return out
 
